@@ -11,7 +11,13 @@
 //! stdin: one scenario per line, actions separated by ';'
 //!     do <call> | start <call> | rel <n> | run
 //!     call := S(<pid>,<flags>,[<call>,...],[<call>,...]) | D | T | K
-//!             flags: any of w (wrong type) b (box_message fails) g (gate) f (handler fails), or -
+//!             flags: any of w (wrong type) b (box_message fails) g (gate) f (handler fails), or -;
+//!             a digit selects the entry point the send goes through (default 0):
+//!               0 ActorCell::send_message      1 ActorRef::<T>::from(cell).send_message
+//!               2 ActorRef::<T>::from(cell).cast   3 ActorRef::<T>::from(cell).call(.., None)
+//!               4 ActorRef::<T>::from(cell).call(.., Some(timeout))   5 rpc::cast(&cell, ..)
+//!               6 rpc::call(&cell, .., None)
+//!             (a call is polled once: Pending / Ok(_) = the request was accepted = ROk)
 //!             first list: calls made from inside box_message; second: calls made by the handler
 //!             D = drain(), T = stop(None), K = kill()
 //! stdout: one line per scenario: `([ev; ...], status)`.
@@ -22,8 +28,11 @@ use std::sync::{Arc, Mutex, OnceLock};
 use std::time::Duration;
 
 use ractor::message::{BoxedDowncastErr, BoxedMessage};
+use futures::FutureExt;
+use ractor::rpc::CallResult;
 use ractor::{
-    Actor, ActorCell, ActorId, ActorProcessingErr, ActorRef, Message, MessagingErr, SupervisionEvent,
+    Actor, ActorCell, ActorId, ActorProcessingErr, ActorRef, Message, MessagingErr, RpcReplyPort,
+    SupervisionEvent,
 };
 use rv_harness::*;
 
@@ -44,6 +53,7 @@ struct Spec {
     boxfail: bool,
     gate: bool,
     hfail: bool,
+    via: u8,
     box_calls: Vec<Call>,
     hcalls: Vec<Call>,
 }
@@ -132,6 +142,7 @@ impl<'a> P<'a> {
                     boxfail: flags.contains('b'),
                     gate: flags.contains('g'),
                     hfail: flags.contains('f'),
+                    via: flags.chars().find(|c| c.is_ascii_digit()).map(|c| c as u8 - b'0').unwrap_or(0),
                     box_calls,
                     hcalls,
                 }))
@@ -180,6 +191,7 @@ impl Ctx {
 struct Inner {
     spec: Arc<Spec>,
     ctx: Arc<Ctx>,
+    reply: Option<RpcReplyPort<u64>>,
 }
 impl Message for Inner {}
 
@@ -188,6 +200,7 @@ struct HMsg {
     spec: Arc<Spec>,
     ctx: Arc<Ctx>,
     gate: Option<Arc<Gate>>,
+    reply: Option<RpcReplyPort<u64>>,
 }
 impl Message for HMsg {
     fn box_message(self, pid: &ActorId) -> Result<BoxedMessage, BoxedDowncastErr> {
@@ -202,16 +215,52 @@ impl Message for HMsg {
         if self.spec.boxfail {
             return Err(BoxedDowncastErr);
         }
-        Inner { spec: self.spec, ctx: self.ctx }.box_message(pid)
+        Inner { spec: self.spec, ctx: self.ctx, reply: self.reply }.box_message(pid)
     }
     fn from_boxed(m: BoxedMessage) -> Result<Self, BoxedDowncastErr> {
-        Inner::from_boxed(m).map(|i| HMsg { spec: i.spec, ctx: i.ctx, gate: None })
+        Inner::from_boxed(m).map(|i| HMsg { spec: i.spec, ctx: i.ctx, gate: None, reply: i.reply })
     }
 }
 
 /// a message of a different type, for the TypeId check
-struct Wrong(#[allow(dead_code)] u64);
+struct Wrong(u64, #[allow(dead_code)] Option<RpcReplyPort<u64>>);
 impl Message for Wrong {}
+
+/// poll a `call` future exactly once (the request is sent on the first poll): an error of the
+/// initial send is returned; Pending or any CallResult means the request was accepted
+fn call_once<T, F>(fut: F) -> Result<(), MessagingErr<T>>
+where
+    F: std::future::Future<Output = Result<CallResult<u64>, MessagingErr<T>>>,
+{
+    match fut.now_or_never() {
+        None | Some(Ok(_)) => Ok(()),
+        Some(Err(e)) => Err(e),
+    }
+}
+
+fn call_timeout() -> Option<Duration> {
+    // the timeout variant needs a timer, i.e. a runtime context (driver and handlers have one)
+    tokio::runtime::Handle::try_current().ok().map(|_| Duration::from_secs(5))
+}
+
+/// send `m` through the selected public entry point
+fn send_via<T: Message>(
+    cell: &ActorCell,
+    via: u8,
+    m: T,
+    with_port: impl FnOnce(T, RpcReplyPort<u64>) -> T,
+) -> Result<(), MessagingErr<T>> {
+    let typed: ActorRef<T> = cell.clone().into();
+    match via {
+        1 => typed.send_message(m),
+        2 => typed.cast(m),
+        3 => call_once(typed.call(|p| with_port(m, p), None)),
+        4 => call_once(typed.call(|p| with_port(m, p), call_timeout())),
+        5 => ractor::rpc::cast(cell, m),
+        6 => call_once(ractor::rpc::call(cell, |p| with_port(m, p), None)),
+        _ => cell.send_message(m),
+    }
+}
 
 fn res_term<T>(r: &Result<(), MessagingErr<T>>, pid_of: impl Fn(&T) -> u64) -> String {
     match r {
@@ -228,10 +277,14 @@ fn perform(ctx: &Arc<Ctx>, c: &Call, gate: Option<Arc<Gate>>) {
         Call::Send(spec) => {
             ctx.ev(format!("EBegin {} {}", spec.pid, coq_bool(spec.wrong)));
             let r = if spec.wrong {
-                let r = ctx.cell().send_message(Wrong(spec.pid));
+                let r = send_via(ctx.cell(), spec.via, Wrong(spec.pid, None), |m, p| Wrong(m.0, Some(p)));
                 res_term(&r, |m| m.0)
             } else {
-                let r = ctx.cell().send_message(HMsg { spec: spec.clone(), ctx: ctx.clone(), gate });
+                let m = HMsg { spec: spec.clone(), ctx: ctx.clone(), gate, reply: None };
+                let r = send_via(ctx.cell(), spec.via, m, |mut m, p| {
+                    m.reply = Some(p);
+                    m
+                });
                 res_term(&r, |m| m.spec.pid)
             };
             ctx.ev(format!("EEnd {} {}", spec.pid, r));
@@ -263,6 +316,9 @@ impl Actor for Target {
     }
     async fn handle(&self, _: ActorRef<HMsg>, m: HMsg, _: &mut ()) -> Result<(), ActorProcessingErr> {
         self.0.ev(format!("EHandle {}", m.spec.pid));
+        if let Some(p) = m.reply {
+            let _ = p.send(m.spec.pid);
+        }
         for c in &m.spec.hcalls {
             perform(&self.0, c, None);
         }
@@ -427,6 +483,7 @@ fn stress(rest: &str) -> String {
                         boxfail: false,
                         gate: false,
                         hfail: false,
+                        via: 0,
                         box_calls: vec![],
                         hcalls: vec![],
                     });
